@@ -160,3 +160,8 @@ VERDICT_TEMPLATES['located_and_global_types'] = dict(ref=_ref_located, tpl=_T('T
 _ELEMENTARY = 'BOOL SINT INT DINT LINT USINT UINT UDINT ULINT REAL LREAL TIME DATE TIME_OF_DAY TOD DATE_AND_TIME DT STRING WSTRING BYTE WORD DWORD LWORD'.split()
 def _ref_elementary(t): return set()
 VERDICT_TEMPLATES['elementary_types'] = dict(ref=_ref_elementary, tpl=_T('FUNCTION_BLOCK fb\n', ('alt', ['VAR', 'VAR_INPUT', 'VAR_OUTPUT', 'VAR_IN_OUT']), '\n  v : ', ('alt', _ELEMENTARY), ';\nEND_VAR\nEND_FUNCTION_BLOCK\n'))
+
+# assigning an enumeration value to a variable of an enumeration (or alias-of-enumeration) type, declared with or without an initial value, is a valid unit
+def _ref_enum_assign(t): return set()
+VERDICT_TEMPLATES['enum_value_assignment'] = dict(ref=_ref_enum_assign, tpl=_T('TYPE\n  e : (a, b) := a;\n  f : e;\nEND_TYPE\n', ('alt', ['FUNCTION_BLOCK p\n', 'PROGRAM p\n']), 'VAR\n  v : ', ('alt', ['e', 'f']), ('alt', ['', ' := a', ' := b']), ';\n  x : INT;\nEND_VAR\n  v := ',
+    ('alt', ['a', 'b', 'B']), ';\n  x := 1;\n', ('dep', 0, ['END_FUNCTION_BLOCK\n', 'END_PROGRAM\n'])))
